@@ -183,6 +183,8 @@ class Scenario:
         files = self.host.files
         drv = self
 
+        blind = set()      # invocations without a local trace function of the agent (see below)
+
         def tf(frame, event, arg):
             if frame.f_code.co_filename not in files:
                 return None
@@ -198,12 +200,26 @@ class Scenario:
                 elif event == 'exception':
                     drv.frame_results.setdefault(id(frame), []).append((seq, 'exception', arg[0].__name__))
             rec['thr'] = drv.thr()
+            # CPython semantics, emulated (this wrapper has to stay installed to observe): the value the global trace
+            # function returns for a `call` event becomes the invocation's LOCAL trace function; None = this
+            # invocation's line / return / exception events are not traced at all. (A None returned for a local event
+            # changes nothing in CPython 3.12.)
+            if event != 'call' and id(frame) in blind:
+                rec['blind'] = True
+                if event == 'return':
+                    blind.discard(id(frame))
+                return tf
             drv.tl.rec = rec
             drv.tl.seq = seq
             try:
                 r = handler.trace_call(frame, event, arg)
                 if r is None:
                     rec['returned_none'] = True
+                    if event == 'call':
+                        blind.add(id(frame))
+                        rec['blind'] = True
+                elif event == 'call':
+                    blind.discard(id(frame))
             except BaseException as ex:
                 rec['escaped'] = repr(ex)
             finally:
@@ -331,6 +347,7 @@ class Scenario:
             else:
                 out.append({'ev': r['ev'], 'thr': r['thr'], 'file': r['file'], 'fn': r['fn'], 'line': r['line'],
                             'fired': sorted(r['fired']),
-                            'closed': sorted([c[0], renum.get(c[1], 0)] for c in r['closed'])})
+                            'closed': sorted([c[0], renum.get(c[1], 0)] for c in r['closed']),
+                            'blind': bool(r.get('blind'))})
         hdr = {'tps': [self._hdr_tp(t) for t in self.all_model_tps]}
         return [hdr] + out
